@@ -5,6 +5,16 @@ NONTRIVIAL = {"C01": ["dec_ok", "key_creations"], "C02": ["faulted_ops", "key_cr
               "C04": ["key_creations", "metastore_reads"], "C05": ["revocations", "metastore_reads"], "C07": ["mutated_records"],
               "C09": ["key_creations", "faulted_ops", "metastore_reads"], "C10": ["metastore_reads", "dec_ok"], "C20": ["enc_ok", "dec_ok"]}
 
+def session_cache_part(ctx):
+    # cached sessions (session_cache.go) are not part of the sequential envelope model: their key caches
+    # must be released exactly once too - observed on the real code under every one-preemption schedule
+    import re
+    from verifpy.conc import preempt_part
+    preempt_part(ctx, "C09", "sesscache", accept=lambda l: bool(re.search(r"uac=[1-9]|leaked=[1-9]|dbl=[1-9]|destroyed", l)))
+    ctx.trusted.append("go/cmd/hxconc sesscache-* scenarios with use-after-close / double-close / all-secrets-released accounting")
+
+
 def run(ctx):
     return envelope.run(ctx, "C09", ["AsherahVerif.Props.C09"], NONTRIVIAL["C09"], modes=(('faults', 'boundaries'), ('faultpairs', 'allboundaries')),
-                        extra_runs=[('protectedmemory', ['-mode', 'random', '-cases', '400' if ctx.tier == 'quick' else '6000', '-len', '50', '-secret', 'protected'], {})])
+                        extra_runs=[('protectedmemory', ['-mode', 'random', '-cases', '400' if ctx.tier == 'quick' else '6000', '-len', '50', '-secret', 'protected'], {})],
+                        pre_finish=session_cache_part)
